@@ -56,6 +56,13 @@ def gen_case(rng):
             w_big = rng.choice([1000.0, 5000.0, 2000.0])
             acs[0]['params']['w'] = w_big
             acs[1]['params']['w'] = w_big + 0.005
+    # one slow line below the frequency resolution itself (w = 5e-4 rad/s with nothing at DC): still a positive frequency, with its own
+    # -w line in the two-sided spectrum
+    srcs = [c for c in case['components'] if 'w' in c['params'] or c['kind'].startswith('dc_')]
+    if srcs and all(c['kind'] in ('ac_voltage_source', 'ac_current_source') for c in srcs) and rng.random() < 0.3:
+        slow = rng.choice([5e-4, 2.0 ** -11, 1e-3])
+        for c in srcs:
+            c['params']['w'] = slow
     wmax = base * (rng.randint(0, 5) + 0.5)
     if base in (1.0, 0.5, 2.0, 50.0) and rng.random() < 0.4:
         wmax = base * rng.randint(0, 5)          # w_max exactly on a harmonic (k*w0 <= w_max includes it); exact in binary64 for these bases
@@ -257,6 +264,20 @@ def examine(ctx, cases, n_near=0):
                 if np.max(np.abs(ph - tf([s[0]['phi'][nlab] for s in sols]))) > tol * scale_v:
                     ctx.violation('C09:wrong-time-function', f'potential {nlab!r}', rep)
                     break
+            # the same instants given as integers (an integer array, a list of ints, one int) denote the same times
+            tfl = np.array([0.0, 1.0, 2.0, 3.0, 7.0])
+            for i in ids[:4]:
+                for getter, sc in ((td.get_voltage, scale_v), (td.get_current, scale_i)):
+                    f = getter(i)
+                    want = np.asarray(f(tfl), dtype=float)
+                    forms = {'integer array': np.asarray(f(tfl.astype(int)), dtype=float), 'list of ints': np.asarray(f([0, 1, 2, 3, 7]), dtype=float),
+                             'single ints': np.array([float(f(k)) for k in (0, 1, 2, 3, 7)]),
+                             'single floats': np.array([float(f(float(k))) for k in (0, 1, 2, 3, 7)])}
+                    for form, got in forms.items():
+                        if got.shape != want.shape or np.max(np.abs(got - want)) > tol * sc:
+                            ctx.violation('C09:time-function-depends-on-the-type-of-the-instants',
+                                          f'{i!r} {getter.__name__}: at t = 0, 1, 2, 3, 7 given as {form}: {got} but as a float array {want}', rep)
+                            break
             # KCL at every instant on first->second flows.  The library reports a lossy source that is active at a frequency
             # in generator direction (minus the flow); the direction flag of every element at every analysed frequency is
             # read off the declarative law.  If one element's flag differs between frequencies its time function mixes two
